@@ -429,13 +429,14 @@ def h_pubsub(t, part):
 
 # ---- simple clients -------------------------------------------------------------------------------------------------------
 SC_OPS = ['emit', 'call+ack', 'event arrives', 'two events arrive', 'receive', 'receive timeout', 'server ends', 'disconnect',
-          'server closes the transport', 'message arrives']
+          'server closes the transport', 'message arrives', 'connect again']
 
 
 def run_simple(asyncio_, plan, live_only=False, reconnection=False):
     """live_only (used by C19's absolute oracle): nothing arrives once the connection has ended, and the trace carries
     ('arrived', event) / ('ended',) markers for the reference model"""
     ended = [False]
+    user_disconnected = [False]
     drv = worlds.AsyncDriver(None, 3000) if asyncio_ else worlds.SyncDriver()
     P = worlds.inj_packet_class()
     holder = {}
@@ -536,6 +537,17 @@ def run_simple(asyncio_, plan, live_only=False, reconnection=False):
                     drv.loop.settle()
             elif name == 'disconnect':
                 api('disconnect', lambda: sc.disconnect())
+                user_disconnected[0] = True
+            elif name == 'connect again':
+                # the application uses the same simple client object for a second connection (after its own disconnect())
+                if user_disconnected[0]:
+                    holder['pos'] = 0
+                    if live_only:
+                        tr.append(('reconnected',))
+                    ended[0] = False
+                    user_disconnected[0] = False
+                    api('connect', lambda: sc.connect('http://h', namespace='/chat', wait_timeout=1))
+                    c = holder['c']
             elif name == 'message arrives':
                 # what the server's send() produces: an event named 'message'
                 drv.call(c.eio.recv(worlds.encode_frames(P(packet.EVENT, data=['message', 'text'], namespace='/chat'))[0]))
@@ -545,6 +557,9 @@ def run_simple(asyncio_, plan, live_only=False, reconnection=False):
                 drv.call(c.eio.server_close())          # engine.io CLOSE packet
                 if asyncio_:
                     drv.loop.settle()
+        if not live_only:
+            # epilogue of the differential pair: whatever is buffered now is read once more
+            api('receive', lambda: sc.receive(timeout=0.5))
         tr.append(('out', [worlds.pk(p) for p in worlds.decode_frames(P, [f for f in c.eio.out if not isinstance(f, tuple)])]))
         tr.append(('contained', [exc_name(x[1]) for x in c.eio.contained]))
     finally:
